@@ -142,7 +142,7 @@ type spec struct {
 var ops = []string{"Select", "SelectDone", "SelectRowid", "IndexedSelect", "IndexedSelectEq", "PKSelect", "PKSelect-wr", "Columns", "Select-wr", "IndexedSelect-wr"}
 var exits = []string{"normal", "normal", "stop", "error-column", "error-table", "error-index", "fault", "panic"}
 var sideKinds = []string{"commit-attempt", "commit-attempt", "other-file-open-read-close", "peer-read", "peer-hold", "peer-release",
-	"same-process-open", "same-process-read", "same-process-close", "same-process-open-close", "probe", "same-handle-nested-call", "same-process-close-then-read", "gc", "gc", "open-while-writer-pending", "open-while-writer-pending", "driver-failed-query", "driver-failed-query"}
+	"same-process-open", "same-process-read", "same-process-close", "same-process-open-close", "probe", "same-handle-nested-call", "same-process-close-then-read", "gc", "gc", "open-while-writer-pending", "open-while-writer-pending", "driver-failed-query", "driver-failed-query", "driver-connect", "driver-connect"}
 
 func TestC06Held(t *testing.T) {
 	vt.Exec(t, vt.Check[spec]{
@@ -217,6 +217,7 @@ func run(r *vt.Run, t vt.TB, s spec) {
 	var second *sqlittle.DB // another handle on the same file in this process
 	var kept []*sqlittle.DB // more of them, closed after the call
 	var pool *sql.DB        // database/sql on the same file
+	var pools []*sql.DB     // more of them
 	peerHolding := false
 	lockLost := "" // set when a same-process action has (by POSIX rules) dropped our lock
 	inOp := false
@@ -433,6 +434,37 @@ func run(r *vt.Run, t vt.TB, s spec) {
 				harness("commit: %v", err)
 			}
 			env.O.Exec("w", "ROLLBACK")
+		case "driver-connect":
+			// database/sql makes a new connection to the same file and uses it
+			// for things that need no read of their own: a ping, an empty
+			// transaction, a statement refused for its syntax, a prepared
+			// statement that is never run. None of that may touch the locks
+			// of a read in progress.
+			p, err := sql.Open("sqlittle", path)
+			if err != nil {
+				harness("sql.Open: %v", err)
+				return
+			}
+			pools = append(pools, p)
+			p.Ping()
+			if c, err := p.Conn(context.Background()); err == nil {
+				c.Close()
+			}
+			if tx, err := p.Begin(); err == nil {
+				tx.Rollback()
+			}
+			if rows, err := p.Query("SELECT FROM t"); err == nil {
+				rows.Close()
+			}
+			if st, err := p.Prepare("SELECT a FROM t"); err == nil {
+				st.Close()
+			}
+			runtime.GC()
+			time.Sleep(2 * time.Millisecond)
+			runtime.GC()
+			if inOp {
+				classes["side:driver-connect-inside-read"] = true
+			}
 		case "driver-failed-query":
 			// the database/sql driver is asked for something it has to refuse
 			// (unknown table, unknown column, not a SELECT, a syntax error) on
@@ -702,6 +734,9 @@ func run(r *vt.Run, t vt.TB, s spec) {
 	}
 	if pool != nil {
 		pool.Close()
+	}
+	for _, p := range pools {
+		p.Close()
 	}
 	d.Close()
 
